@@ -7,11 +7,11 @@
   here says a wrong key or an altered byte *makes* the primitive fail (that is C03/C16's reduction
   plus the primitive's own security), only what the agent does with each outcome.
 
-  The code as it exists does NOT satisfy the property (`C12_fail_closed_counterexample_*`): the
-  full-strength statement `C12_fail_closed` is proved for the model with the four quirks repaired
-  (`Quirks.fixed`: iterate over a snapshot, exception ⇒ FAILED_SEC, undissectable type 11/12 block ⇒
-  FAILED_SEC, absent parameters / empty result array read as empty lists), `C12_fail_closed_partial` for the code as it is (`Quirks.current`) on the region
-  where the quirks cannot bite, and `C12_pass` for the code as it is.
+  `Quirks.current` is the code as it now is (snapshot iteration, exception ⇒ FAILED_SEC,
+  undissectable type 11/12 block ⇒ FAILED_SEC, absent parameters / empty result array read as empty
+  lists). `C12_fail_closed` is the property's first sentence at full strength for it, `C12_pass`
+  the second. The four former defects (D15, D16, D22, D29) are kept as concrete regression
+  instances: the check replays their implementation-side twins on every run.
 -/
 import DtnVerif.Model.SecChain
 import DtnVerif.Lemmas.SecChain
@@ -44,20 +44,20 @@ def FailClosed (q : Quirks) : Prop :=
   ∀ (e : Env) (st : List Blk), bundleDefect e st = true →
     (run q e true st).delivered = false ∧ (run q e true st).secDeleted = true
 
-private theorem sel_fixed (tc : Nat) (b : Blk) : sel Quirks.fixed tc b = (b.typeCode == tc) := by
-  simp [sel, Quirks.fixed]
+private theorem sel_fixed (tc : Nat) (b : Blk) : sel Quirks.current tc b = (b.typeCode == tc) := by
+  simp [sel, Quirks.current]
 
 /-- One step of the repaired code. -/
 private theorem stepRun_fixed (e : Env) (tc : Nat) (st : List Blk) :
-    Evolves tc st (stepRun Quirks.fixed e tc st).1 ∧
-    (∀ f ∈ (stepRun Quirks.fixed e tc st).2, f.isSecCode = true) ∧
+    Evolves tc st (stepRun Quirks.current e tc st).1 ∧
+    (∀ f ∈ (stepRun Quirks.current e tc st).2, f.isSecCode = true) ∧
     ((∃ b ∈ st, b.typeCode = tc ∧ blkDefect e (present st) b = true) →
-      (stepRun Quirks.fixed e tc st).2 ≠ []) := by
-  have hs : stepRun Quirks.fixed e tc st =
-      iterCopy Quirks.fixed e tc (st.filter (sel Quirks.fixed tc)) st [] := by
-    simp [stepRun, Quirks.fixed]
+      (stepRun Quirks.current e tc st).2 ≠ []) := by
+  have hs : stepRun Quirks.current e tc st =
+      iterCopy Quirks.current e tc (st.filter (sel Quirks.current tc)) st [] := by
+    simp [stepRun, Quirks.current]
   rw [hs]
-  obtain ⟨h1, suf, h2, h3, h4⟩ := iterCopy_spec Quirks.fixed e tc (st.filter (sel Quirks.fixed tc)) st []
+  obtain ⟨h1, suf, h2, h3, h4⟩ := iterCopy_spec Quirks.current e tc (st.filter (sel Quirks.current tc)) st []
   refine ⟨h1, ?_, ?_⟩
   · rw [h2]
     simpa using h3 rfl
@@ -70,21 +70,21 @@ private theorem secDeleted_of_code (n : Nat) (bl : List Blk) (h : n = reasonUnkn
     (Result.mk false true (some (.code n)) bl).secDeleted = true := by
   rcases h with h | h <;> subst h <;> rfl
 
-/-- **C12 fail-closed, full strength, for the repaired chain.** For every bundle recorded for
+/-- **C12 fail-closed, full strength.** For every bundle recorded for
     delivery, every accept setting, every oracle of cryptographic outcomes: if some type 11/12 block
     is not an ASB, names an unknown context, has duplicate parameter / result ids, undecodable
     additional headers, or has a target that is missing, lacks exactly one result or does not
     verify – then no application step sees the bundle and `delete` is recorded with reason 13 or 15. -/
-theorem C12_fail_closed : FailClosed Quirks.fixed := by
+theorem C12_fail_closed : FailClosed Quirks.current := by
   intro e st hdef
   simp only [bundleDefect, List.any_eq_true, Bool.and_eq_true] at hdef
   obtain ⟨b, hb, hsec, hd⟩ := hdef
   obtain ⟨ev1, c1, d1⟩ := stepRun_fixed e typeBcb st
-  have key : ∃ n bl, run Quirks.fixed e true st = ⟨false, true, some (.code n), bl⟩ ∧
+  have key : ∃ n bl, run Quirks.current e true st = ⟨false, true, some (.code n), bl⟩ ∧
       (n = reasonUnknownSec ∨ n = reasonFailedSec) := by
     unfold run
     simp only [Bool.not_true, Bool.false_eq_true, ↓reduceIte]
-    by_cases hne : (stepRun Quirks.fixed e typeBcb st).2 = []
+    by_cases hne : (stepRun Quirks.current e typeBcb st).2 = []
     · -- the BCB step passes: the defective block is a BIB and is still there
       rw [hne]
       simp only [verdict_nil]
@@ -94,9 +94,9 @@ theorem C12_fail_closed : FailClosed Quirks.fixed := by
         · exact h
         · exact absurd hne (d1 ⟨b, hb, h, hd⟩)
       obtain ⟨b', hb', sh⟩ := ev1.keep b hb (by rw [htc]; decide)
-      have hd' := blkDefect_mono e (present st) (present (stepRun Quirks.fixed e typeBcb st).1)
+      have hd' := blkDefect_mono e (present st) (present (stepRun Quirks.current e typeBcb st).1)
         (fun n => ev1.present_sub n) b b' sh hd
-      obtain ⟨_, c2, d2⟩ := stepRun_fixed e typeBib (stepRun Quirks.fixed e typeBcb st).1
+      obtain ⟨_, c2, d2⟩ := stepRun_fixed e typeBib (stepRun Quirks.current e typeBcb st).1
       have hne2 := d2 ⟨b', hb', by rw [sh.1, htc], hd'⟩
       obtain ⟨n, hv, hn⟩ := verdict_codes _ hne2 c2
       rw [hv]
@@ -108,101 +108,51 @@ theorem C12_fail_closed : FailClosed Quirks.fixed := by
   rw [hr]
   exact ⟨rfl, secDeleted_of_code n bl hn⟩
 
-/-! ## The code as it is: counterexamples -/
+/-! ## Former defects as regression instances -/
 
 namespace C12ex
 def okAsb (targets : List Nat) : Asb := { targets := targets, ctxId := 3, paramIds := [5], results := targets.map (fun _ => [17]) }
 def payload : Blk := ⟨1, 1, [0x68, 0x69], none⟩
 def age : Blk := ⟨7, 3, [0x00], none⟩
 
-/-- D15: two BIBs, acceptance on; the first (over block 3) verifies and is removed, which shifts the
-    list under the loop: the second (over the payload, tag wrong) is never looked at. -/
+/-- D15: two BIBs, acceptance on; the first (over block 3) verifies and is removed; the second (over
+    the payload, tag wrong) must still be verified. -/
 def envD15 : Env := ⟨true, fun s _ => if s == 2 then .ok else .fail, fun _ _ => []⟩
 def stD15 : List Blk := [⟨11, 2, [], some (okAsb [3])⟩, ⟨11, 4, [], some (okAsb [1])⟩, age, payload]
 
-/-- D16: a BIB whose target block does not exist: `KeyError` ⇒ the failure list holds a string. -/
+/-- D16: a BIB whose target block does not exist (`KeyError` inside `verify_bib`), alone and next to
+    an ordinary failure (unknown context). -/
 def envD16 : Env := ⟨false, fun _ _ => .ok, fun _ _ => []⟩
 def stD16 : List Blk := [⟨11, 2, [], some (okAsb [9])⟩, payload]
-/-- D16, mixed: one failing BIB (reason 15) and one raising BIB: `max()` raises `TypeError`. -/
 def stD16mixed : List Blk := [⟨11, 2, [], some { okAsb [1] with ctxId := 99 }⟩, ⟨11, 4, [], some (okAsb [9])⟩, payload]
 
 /-- D22: a type-11 block whose BTSD is not an ASB. -/
 def stD22 : List Blk := [⟨11, 2, [0xff], none⟩, payload]
+
+/-- D29: a BIB without the optional parameters field whose only target verifies. -/
+def stD29 : List Blk := [⟨11, 2, [], some { okAsb [1] with hasParams := false, paramIds := [] }⟩, payload]
 end C12ex
 
-/-- **D15 witness.** The bundle is defective (second BIB fails) yet delivered. -/
-theorem C12_fail_closed_counterexample_D15 :
-    bundleDefect C12ex.envD15 C12ex.stD15 = true ∧
-    (run Quirks.current C12ex.envD15 true C12ex.stD15).delivered = true := by
-  decide
+/-- hypotheses of `C12_fail_closed` hold on the four witnesses of the former defects, and its
+    conclusion computes: not delivered, deleted with a security reason (15; 15 wins over 13) -/
+example : bundleDefect C12ex.envD15 C12ex.stD15 = true ∧ bundleDefect C12ex.envD16 C12ex.stD16 = true ∧
+    bundleDefect C12ex.envD16 C12ex.stD16mixed = true ∧ bundleDefect C12ex.envD16 C12ex.stD22 = true ∧
+    (run Quirks.current C12ex.envD15 true C12ex.stD15).secDeleted = true ∧
+    (run Quirks.current C12ex.envD16 true C12ex.stD16).reason = some (.code 15) ∧
+    (run Quirks.current C12ex.envD16 true C12ex.stD16mixed).reason = some (.code 15) ∧
+    (run Quirks.current C12ex.envD16 true C12ex.stD22).secDeleted = true ∧
+    (run Quirks.current C12ex.envD16 true C12ex.stD22).delivered = false := by decide
 
-/-- **D16 witness.** Not delivered, but `delete` carries a string, not a security reason; with a
-    second, ordinary failure in the same step not even `delete` is recorded. -/
-theorem C12_fail_closed_counterexample_D16 :
-    bundleDefect C12ex.envD16 C12ex.stD16 = true ∧
-    (run Quirks.current C12ex.envD16 true C12ex.stD16).delivered = false ∧
-    (run Quirks.current C12ex.envD16 true C12ex.stD16).reason = some .str ∧
-    (run Quirks.current C12ex.envD16 true C12ex.stD16).secDeleted = false ∧
-    (run Quirks.current C12ex.envD16 true C12ex.stD16mixed).deleted = false ∧
-    (run Quirks.current C12ex.envD16 true C12ex.stD16mixed).delivered = false := by
-  decide
+/-- a security block without the optional parameters field is not a defect and is delivered -/
+example : bundleDefect C12ex.envD16 C12ex.stD29 = false ∧
+    (run Quirks.current C12ex.envD16 true C12ex.stD29).delivered = true := by decide
 
-/-- **D22 witness.** An undissectable integrity block is ignored and the bundle delivered. -/
-theorem C12_fail_closed_counterexample_D22 :
-    bundleDefect C12ex.envD16 C12ex.stD22 = true ∧
-    (run Quirks.current C12ex.envD16 true C12ex.stD22).delivered = true := by
-  decide
-
-/-- The code as it is does not satisfy the property. -/
-theorem C12_fail_closed_counterexample : ¬ FailClosed Quirks.current := by
-  intro h
-  have := (h C12ex.envD16 C12ex.stD22 (by decide)).1
-  exact absurd this (by decide)
-
-/-! ## The code as it is: what does hold -/
-
-/-- **C12 fail-closed, partial, for the code as it exists.** Excluded region (explicit, decidable
-    hypotheses): acceptance is off (no block is removed while the step iterates – D15), every type
-    11/12 block dissected as an ASB (D22) with at least one target, and nothing raises – parameters
-    field present and no empty result array (`noneTrap`), additional headers decodable, every target block and result
-    list present, the per-target check returns rather than raises (D16, D29). Inside it the property's
-    first sentence holds. What is missing relative to `C12_fail_closed`: exactly those three regions,
-    on which `C12_fail_closed_counterexample_D15/D16/D22` show the statement false. -/
-theorem C12_fail_closed_partial (e : Env) (st : List Blk) (hacc : e.accept = false)
-    (hwell : ∀ b ∈ st, isSec b = true → blkNoQuirk e (present st) b = true)
-    (hdef : bundleDefect e st = true) :
-    (run Quirks.current e true st).delivered = false ∧ (run Quirks.current e true st).secDeleted = true := by
-  simp only [bundleDefect, List.any_eq_true, Bool.and_eq_true] at hdef
-  obtain ⟨b, hb, hsec, hd⟩ := hdef
-  have s12 := stepRun_const Quirks.current rfl e typeBcb (Or.inr rfl) st hacc hwell
-  have s11 := stepRun_const Quirks.current rfl e typeBib (Or.inl rfl) st hacc hwell
-  have key : ∃ n bl, run Quirks.current e true st = ⟨false, true, some (.code n), bl⟩ ∧
-      (n = reasonUnknownSec ∨ n = reasonFailedSec) := by
-    unfold run
-    simp only [Bool.not_true, Bool.false_eq_true, ↓reduceIte, s12]
-    by_cases hne : (st.filter (fun b => b.typeCode == typeBcb)).flatMap
-        (fun b => optList (verifyBlock Quirks.fixed e typeBcb st b).2) = []
-    · rw [hne]
-      simp only [verdict_nil, s11]
-      have htc : b.typeCode = typeBib := by
-        simp only [isSec, Bool.or_eq_true, beq_iff_eq] at hsec
-        rcases hsec with h | h
-        · exact h
-        · exact absurd hne (flatMap_fails_ne e typeBcb st b hb h hd)
-      obtain ⟨n, hv, hn⟩ := verdict_codes _ (flatMap_fails_ne e typeBib st b hb htc hd) (flatMap_codes e typeBib st)
-      rw [hv]
-      exact ⟨n, _, rfl, hn⟩
-    · obtain ⟨n, hv, hn⟩ := verdict_codes _ hne (flatMap_codes e typeBcb st)
-      rw [hv]
-      exact ⟨n, _, rfl, hn⟩
-  obtain ⟨n, bl, hr, hn⟩ := key
-  rw [hr]
-  exact ⟨rfl, secDeleted_of_code n bl hn⟩
+/-! ## Pass -/
 
 /-- **C12 pass.** (Any quirk set, in particular the code as it is.) If every security block is clean
     – dissected, known context, no duplicate ids, every target present with exactly one result that
-    verifies – no security block targets another security block and (while D29 is in the code,
-    `q.noneRaises`) every security block has its parameters field and no empty result array, the bundle reaches the
+    verifies – and no security block targets another security block (and, only for a quirk set with
+    `noneRaises`, i.e. not for the current code, parameters field present and no empty result array), the bundle reaches the
     application steps, `delete` is not recorded, no block is invented and every non-security block
     is still there with its type, number and dissected payload. -/
 theorem C12_pass (q : Quirks) (e : Env) (st : List Blk) (hv : AllVerify q e st) :
@@ -216,13 +166,14 @@ theorem C12_pass (q : Quirks) (e : Env) (st : List Blk) (hv : AllVerify q e st) 
   simp only [Bool.not_true, Bool.false_eq_true, ↓reduceIte, h1, verdict_nil, h2]
   exact ⟨trivial, trivial, hb2, hk2⟩
 
-/-- Without acceptance (and with the quirk-free well-formedness of `C12_fail_closed_partial`) a
-    verified bundle is delivered exactly as received: no block removed, no BTSD rewritten. -/
+/-- Without acceptance a verified bundle whose security blocks each have at least one target (and
+    on which nothing raises: `blkNoQuirk`) is delivered exactly as received: no block removed, no
+    BTSD rewritten. -/
 theorem C12_pass_unchanged (e : Env) (st : List Blk) (hacc : e.accept = false)
     (hwell : ∀ b ∈ st, isSec b = true → blkNoQuirk e (present st) b = true)
     (hv : AllVerify Quirks.current e st) : (run Quirks.current e true st).blocks = st := by
-  have s12 := stepRun_const Quirks.current rfl e typeBcb (Or.inr rfl) st hacc hwell
-  have s11 := stepRun_const Quirks.current rfl e typeBib (Or.inl rfl) st hacc hwell
+  have s12 := stepRun_const Quirks.current e typeBcb (Or.inr rfl) st hacc hwell
+  have s11 := stepRun_const Quirks.current e typeBib (Or.inl rfl) st hacc hwell
   have hb0 : Back st st := fun b hb => ⟨b, hb, rfl, rfl, rfl⟩
   have hk0 : KeepsNonSec st st := fun b hb _ => ⟨b, hb, rfl, rfl, rfl⟩
   obtain ⟨h1, _, _⟩ := stepRun_clean Quirks.current e typeBcb (Or.inr rfl) st st hv hb0 hk0
@@ -233,17 +184,6 @@ theorem C12_pass_unchanged (e : Env) (st : List Blk) (hacc : e.accept = false)
   simp only at h2
   unfold run
   simp only [Bool.not_true, Bool.false_eq_true, ↓reduceIte, s12, h1, verdict_nil, s11, h2]
-
-/-- A security block without the (optional, RFC 9172 §3.6) parameters field is treated as raising:
-    `check_secblk` iterates `payload.parameters = None` (D29, `Quirks.noneRaises`). Such a block,
-    although every target verifies, keeps the bundle from being delivered by the code as it is – hence
-    the `notrap` hypothesis of `C12_pass`; the repaired chain delivers it. -/
-theorem C12_pass_noparams_counterexample :
-    (run Quirks.current C12ex.envD16 true
-      [⟨11, 2, [], some { C12ex.okAsb [1] with hasParams := false, paramIds := [] }⟩, C12ex.payload]).delivered = false ∧
-    (run Quirks.fixed C12ex.envD16 true
-      [⟨11, 2, [], some { C12ex.okAsb [1] with hasParams := false, paramIds := [] }⟩, C12ex.payload]).delivered = true := by
-  decide
 
 namespace C12ex
 /-- BCB over the payload + BIB over the payload, both verify, acceptance on -/
@@ -281,20 +221,6 @@ example : AllVerify Quirks.current C12ex.envAcc C12ex.stBoth := by
       rcases hb' with h | h | h | h <;> subst h <;> first | rfl | (exact absurd hn (by decide))
     · exact absurd hs (by decide)
     · exact absurd hs (by decide)
-
-/-- hypotheses of `C12_fail_closed_partial` are satisfiable: wrong tag on the second of two BIBs,
-    acceptance off -/
-example : C12ex.envD15.accept = true ∧
-    (let e : Env := { C12ex.envD15 with accept := false }
-     (C12ex.stD15.all fun b => !isSec b || blkNoQuirk e (present C12ex.stD15) b) = true ∧
-     bundleDefect e C12ex.stD15 = true ∧
-     (run Quirks.current e true C12ex.stD15).secDeleted = true) := by decide
-
-/-- The same witnesses are handled by the repaired chain. -/
-example : (run Quirks.fixed C12ex.envD15 true C12ex.stD15).secDeleted = true ∧
-    (run Quirks.fixed C12ex.envD16 true C12ex.stD16).secDeleted = true ∧
-    (run Quirks.fixed C12ex.envD16 true C12ex.stD16mixed).secDeleted = true ∧
-    (run Quirks.fixed C12ex.envD16 true C12ex.stD22).secDeleted = true := by decide
 
 end Props
 end DtnVerif
